@@ -1142,6 +1142,86 @@ func (m LazyArgumentMap) jsonPath(p string) json.Marshaler {
 	}
 }
 
+// typedPath works like jsonPath for the outputs of a call, using the declared
+// types of the output parameters to tell a struct from a typed map: without
+// them a typed map with a key equal to the name of the projected member of
+// its values, {"f": {"f": ..}, "g": {"f": ..}}.f, would be taken for a struct.
+// It falls back to jsonPath wherever the type does not say.
+func (m LazyArgumentMap) typedPath(p string, params *syntax.OutParams,
+	lookup *syntax.TypeLookup) json.Marshaler {
+	if p == "" || params == nil || lookup == nil {
+		return m.jsonPath(p)
+	}
+	name, rest := p, ""
+	if i := strings.IndexRune(p, '.'); i >= 0 {
+		name, rest = p[:i], p[i+1:]
+	}
+	param := params.Table[name]
+	if param == nil || rest == "" {
+		return m.jsonPath(p)
+	}
+	return typedJsonPath(m[name], rest, lookup.Get(param.GetTname()), lookup)
+}
+
+func typedJsonPath(msg json.RawMessage, p string, t syntax.Type,
+	lookup *syntax.TypeLookup) json.Marshaler {
+	if p == "" {
+		return msg
+	}
+	msg = json.RawMessage(bytes.TrimSpace(msg))
+	if len(msg) == 0 || bytes.Equal(msg, nullBytes) {
+		return msg
+	}
+	switch t := t.(type) {
+	case *syntax.ArrayType:
+		var arr []json.RawMessage
+		if msg[0] != '[' || json.Unmarshal(msg, &arr) != nil {
+			return jsonPath(msg, p)
+		}
+		var elem syntax.Type = t.Elem
+		if t.Dim > 1 {
+			elem = lookup.GetArray(t.Elem, t.Dim-1)
+		}
+		result := make(marshallerArray, len(arr))
+		for i, v := range arr {
+			result[i] = typedJsonPath(v, p, elem, lookup)
+		}
+		return result
+	case *syntax.TypedMapType:
+		var m LazyArgumentMap
+		if msg[0] != '{' || json.Unmarshal(msg, &m) != nil {
+			return jsonPath(msg, p)
+		}
+		keys := make([]string, 0, len(m))
+		for k := range m {
+			keys = append(keys, k)
+		}
+		sort.Strings(keys)
+		result := make(marshallerArray, len(keys))
+		for i, k := range keys {
+			result[i] = typedJsonPath(m[k], p, t.Elem, lookup)
+		}
+		return result
+	case *syntax.StructType:
+		var m LazyArgumentMap
+		if msg[0] != '{' || json.Unmarshal(msg, &m) != nil {
+			return jsonPath(msg, p)
+		}
+		name, rest := p, ""
+		if i := strings.IndexRune(p, '.'); i >= 0 {
+			name, rest = p[:i], p[i+1:]
+		}
+		for _, member := range t.Members {
+			if member.Id == name {
+				return typedJsonPath(m[name], rest, lookup.Get(member.Tname), lookup)
+			}
+		}
+		return jsonPath(msg, p)
+	default:
+		return jsonPath(msg, p)
+	}
+}
+
 func jsonPath(msg json.RawMessage, p string) json.Marshaler {
 	if p == "" {
 		return msg
